@@ -22,6 +22,11 @@ class WriteNdarrayCallee(Contract):
     name = "RTDCWriter.write_ndarray"
     qualname = "RTDCWriter.write_ndarray"
     params = ("self", "group", "name", "data", "dtype")
+    with_summaries = True
+
+    def __init__(self, with_summaries=True, **kw):
+        super().__init__(**kw)
+        self.with_summaries = with_summaries
 
     def __call__(self, interp, self_, group=None, name=None, data=None, dtype=None):
         eng = interp.ctx.engine
@@ -59,7 +64,7 @@ class WriteNdarrayCallee(Contract):
         j = z3.Int("j!wn")
         ctx.assume(z3.ForAll([j], z3.Implies(z3.And(j >= off, j < off + arr.n),
                                              nc.sel(j) == arr.sel(j - off))))
-        if not nc.item_shape and nc.kind in ("F", "int", "real"):
+        if self.with_summaries and not nc.item_shape and nc.kind in ("F", "int", "real"):
             # summaries (SInv), see C20
             s = npmodel.summary(ctx, nc)
             at = dset.fields["attrs"]
@@ -72,3 +77,33 @@ class WriteNdarrayCallee(Contract):
             if old is not None:
                 npmodel.note_slice_write(interp, nc, old, off, nc.n, arr)
         return dset
+
+
+class StoreFeatureCallee(Contract):
+    """RTDCWriter.store_feature(feat, data) as verified in contracts/C01.py: the
+    dataset events/<feat> grows by exactly the given events (replace mode: holds
+    exactly them); "index" is enumerated by the writer, continuing the stored
+    index; nothing else in the events group changes."""
+    name = "RTDCWriter.store_feature"
+
+    def __init__(self, with_summaries=True, **kw):
+        super().__init__(**kw)
+        self.with_summaries = with_summaries
+
+    def __call__(self, interp, hw, feat=None, data=None, shape=None):
+        from pyvc.engine import Unsupported
+        ctx = interp.ctx
+        if not isinstance(feat, str):
+            raise Unsupported("store_feature with a symbolic feature name")
+        events = h5model._grp_require(interp, hw.fields["h5file"], "events")
+        if hw.fields.get("mode") == "replace":
+            found, _ = _grp_lookup(interp, events, feat)
+            if found:
+                h5model._grp_delitem(interp, events, feat)
+        wn = WriteNdarrayCallee(with_summaries=self.with_summaries)
+        if feat == "index":
+            arr = npmodel.as_arr(interp, data)
+            found, ds0 = _grp_lookup(interp, events, "index")
+            nev0 = ds0.fields["content"].n if found else Z(0)
+            data = models.arr_new(interp, arr.n, lambda k: nev0 + 1 + k, "int")
+        return wn(interp, hw, group=events, name=feat, data=data, dtype=None)
